@@ -123,73 +123,6 @@ end Accepted
 section Checker
 variable (fold : N → N)
 
-theorem uniqueUpToFold_iff : ∀ l : List N, uniqueUpToFold fold l = true ↔ l.Pairwise (fun a b => fold a ≠ fold b)
-  | [] => by simp [uniqueUpToFold]
-  | a :: l => by
-    simp only [uniqueUpToFold, Bool.and_eq_true, List.all_eq_true, Bool.not_eq_true', decide_eq_false_iff_not,
-      List.pairwise_cons, uniqueUpToFold_iff l]
-
-theorem connIn_rgOfProc (p : Proc N) : ConnIn (rgOfProc p) := by
-  intro a b h
-  have h' : edgeB p a b = true := h
-  unfold edgeB at h'
-  rw [List.any_eq_true] at h'
-  obtain ⟨f, hf, hfb⟩ := h'
-  simp only [Bool.and_eq_true, decide_eq_true_eq] at hfb
-  show b ∈ procNames p
-  unfold procNames Proc.allUnits
-  rw [← hfb.1]
-  rcases List.mem_append.1 hf with hf | hf
-  · simp only [List.map_append, List.mem_append, List.mem_map]
-    exact Or.inl (Or.inr ⟨f.model, ⟨f, hf, rfl⟩, rfl⟩)
-  · simp only [List.map_append, List.mem_append, List.mem_map]
-    exact Or.inr ⟨f.model, ⟨f, hf, rfl⟩, rfl⟩
-
-theorem eq_of_map_nodup {α β : Type} (f : α → β) : ∀ {l : List α}, (l.map f).Nodup → ∀ {x y : α}, x ∈ l → y ∈ l →
-    f x = f y → x = y
-  | [], _, _, _, hx, _, _ => by cases hx
-  | a :: l, hn, x, y, hx, hy, hxy => by
-    rw [List.map_cons, List.nodup_cons] at hn
-    rcases List.mem_cons.1 hx with hxa | hx
-    · rcases List.mem_cons.1 hy with hya | hy
-      · rw [hxa, hya]
-      · exact absurd (List.mem_map.2 ⟨y, hy, by rw [← hxy, hxa]⟩) hn.1
-    · rcases List.mem_cons.1 hy with hya | hy
-      · exact absurd (List.mem_map.2 ⟨x, hx, by rw [hxy, hya]⟩) hn.1
-      · exact eq_of_map_nodup f hn.2 hx hy hxy
-
-theorem mem_allUnits_of_dest {p : Proc N} {f : FuncU N} (hf : f ∈ p.outPorts ++ p.internal) : f.model ∈ p.allUnits := by
-  unfold Proc.allUnits
-  rcases List.mem_append.1 hf with hf | hf
-  · simp only [List.mem_append, List.mem_map]
-    exact Or.inl (Or.inr ⟨f, hf, rfl⟩)
-  · simp only [List.mem_append, List.mem_map]
-    exact Or.inr ⟨f, hf, rfl⟩
-
-theorem mem_allUnits_of_inBoundary {p : Proc N} {m : UnitM N} (hm : m ∈ p.inBoundary) : m ∈ p.allUnits := by
-  unfold Proc.inBoundary at hm
-  unfold Proc.allUnits
-  rcases List.mem_append.1 hm with hm | hm <;> simp [hm]
-
-theorem supB_of_mem {p : Proc N} {m : UnitM N} (hm : m ∈ p.allUnits) {c : N} (hc : c ∈ m.caps) :
-    supB p m.name c = true := by
-  unfold supB
-  rw [List.any_eq_true]
-  exact ⟨m, hm, by simp [hc]⟩
-
-/-- the eight clauses of `checkC09` -/
-theorem checkC09_eq (p : Proc N) : checkC09 fold p = true ↔
-    ((p.outPorts ++ p.internal).all (fun f => f.preds.all (fun q => decide (q ∈ procNames p))) = true ∧
-     (rgOfProc p).acyclicB = true ∧
-     p.allUnits.all (fun m => decide (0 < m.width)) = true ∧
-     uniqueUpToFold fold (procNames p) = true ∧
-     p.allUnits.all (fun m => !m.caps.isEmpty) = true ∧
-     (p.outPorts ++ p.internal).all (fun f => f.preds.all (fun q => f.model.caps.any (fun c => supB p q c))) = true ∧
-     p.inBoundary.all (fun m => m.caps.all (fun c => (rgOfProc p).reachesOutB c m.name)) = true ∧
-     p.inBoundary.all (fun m => m.caps.all (fun c => (rgOfProc p).locksExactB c m.name)) = true) := by
-  unfold checkC09 allPass clausesC09
-  simp only [List.all_cons, List.all_nil, Bool.and_true, Bool.and_eq_true, and_assoc]
-
 /-- **`checkC09` decides `C09_Holds`** — for every processor object -/
 theorem C09_check_iff (p : Proc N) : checkC09 fold p = true ↔ C09_Holds fold p := by
   rw [checkC09_eq]
@@ -265,6 +198,35 @@ theorem C09_check_iff (p : Proc N) : checkC09 fold p = true ↔ C09_Holds fold p
       exact (locksExactB_iff _ hconn h2 (hnames m hmu) (supB_of_mem hmu hc)).2 (h8 m hm c hc)
 
 end Checker
+
+/-! ## non-vacuity (`N := Nat`, `fold := id`, evaluated by `decide`) -/
+
+namespace C09Examples
+
+def u (n : Nat) (w : Int) (caps : List Nat) (rd wr : Bool) : UnitD Nat := ⟨n, w, caps, rd, wr, []⟩
+
+/-- a diamond `1 → 2 → 4`, `1 → 3 → 4`; the read lock sits at the input port, the write lock at the output port -/
+def dOk : Desc Nat :=
+  ⟨[u 1 1 [10] true false, u 2 1 [10] false false, u 3 2 [10] false false, u 4 1 [10] false true],
+   [[1, 2], [1, 3], [2, 4], [3, 4]]⟩
+
+example : (load id dOk).isOk = true := by decide
+example : (match load id dOk with | .ok p => checkC09 id p | .error _ => false) = true := by decide
+example : (match load id dOk with
+    | .ok p => (p.inPorts.map (·.name), p.outPorts.map (·.model.name), p.internal.map (·.model.name))
+    | .error _ => ([], [], [])) = ([1], [4], [2, 3]) := by decide
+/-- the theorem applies to the accepted description -/
+example : ∀ p, load id dOk = .ok p → C09_Holds id p := fun _ h => C09_accepted_wellformed id h
+
+/-- the checker is not trivially true: a route with two read locks / a unit without capabilities / a cycle -/
+example : checkC09 id (⟨[⟨1, 1, [10], true, true, []⟩], [⟨⟨2, 1, [10], true, false, []⟩, [1]⟩], [], []⟩ : Proc Nat) = false := by
+  decide
+example : checkC09 id (⟨[], [], [⟨1, 1, [], true, true, []⟩], []⟩ : Proc Nat) = false := by decide
+example : checkC09 id (⟨[], [], [], [⟨⟨1, 1, [10], true, true, []⟩, [2]⟩, ⟨⟨2, 1, [10], false, false, []⟩, [1]⟩]⟩ : Proc Nat) = false := by
+  decide
+example : checkC09 id (⟨[], [], [⟨1, 1, [10], true, true, []⟩], []⟩ : Proc Nat) = true := by decide
+
+end C09Examples
 
 end Loader
 end ProcSim
